@@ -255,7 +255,7 @@ func Run(s *Script, c Ctx, tr *Trace) {
 		case OpSet:
 			c.Set(o.S, o.S2)
 		case OpAddError:
-			c.AddError(ErrScript)
+			c.AddError(fmt.Errorf("%w in %s", ErrScript, s.Name))
 		case OpAbort:
 			tr.Add("  %s before-abort%s", s.Name, ab(c))
 			c.Abort()
